@@ -59,7 +59,7 @@ def main(argv=None):
     lines = []
     for ob, out in zip(obs, outs):
         if a.verbose or out.status not in ("discharged", "bounded-pass"):
-            print(f"  [{out.status:12s}] {ob.id} ({out.backend}, {out.seconds:.2f}s) {out.detail[:400] if out.status not in ('discharged','bounded-pass') or a.verbose else ''}")
+            print(f"  [{out.status:12s}] {ob.id} ({out.backend}, {out.seconds:.2f}s) {(out.detail[-600:] if out.status == 'error' else out.detail[:400]) if out.status not in ('discharged','bounded-pass') or a.verbose else ''}")
         if out.status in ("refuted", "bounded-fail"):
             k = core.match_known(prop, ob, out, known)
             if k:
